@@ -109,6 +109,30 @@ type cb struct {
 	created int
 }
 
+// spare hands the options over as a slice with unused capacity behind them, as a caller passing a prefix of an
+// option pool does; spareWritten tells how many of the unused slots the last call wrote to.
+var lastSpare []resource.WriteOption
+
+func spare(w []resource.WriteOption) []resource.WriteOption {
+	ws := make([]resource.WriteOption, len(w), len(w)+4)
+	copy(ws, w)
+	lastSpare = ws
+	return ws
+}
+
+func spareWritten() (n int) {
+	if lastSpare == nil {
+		return 0
+	}
+	for _, o := range lastSpare[len(lastSpare):cap(lastSpare)] {
+		if o != nil {
+			n++
+		}
+	}
+	lastSpare = nil
+	return n
+}
+
 func (o wopts) build(c *cb) []resource.WriteOption {
 	var w []resource.WriteOption
 	switch o.Mask {
@@ -508,13 +532,13 @@ func runPath(cfg config, path []op) (key, msg string, finalCanon string) {
 					}
 					got.ret = strings.Join(parts, " ")
 				case "set":
-					ret, err = value.Set(p.V.msg(), p.O.build(c)...)
+					ret, err = value.Set(p.V.msg(), spare(p.O.build(c))...)
 				case "add":
-					ret, err = col.Add(p.ID, p.V.msg(), p.O.build(c)...)
+					ret, err = col.Add(p.ID, p.V.msg(), spare(p.O.build(c))...)
 				case "update":
-					ret, err = col.Update(p.ID, p.V.msg(), p.O.build(c)...)
+					ret, err = col.Update(p.ID, p.V.msg(), spare(p.O.build(c))...)
 				case "delete":
-					ret, err = col.Delete(p.ID, p.O.build(c)...)
+					ret, err = col.Delete(p.ID, spare(p.O.build(c))...)
 					if err != nil {
 						ret = nil // on a failed precondition Delete also returns the current value; not part of the comparison
 					}
@@ -524,6 +548,10 @@ func runPath(cfg config, path []op) (key, msg string, finalCanon string) {
 			where := fmt.Sprintf("step %d %v", step, p)
 			if pn != nil {
 				failKey, failMsg = "panic", fmt.Sprintf("%s panicked: %v", where, pn)
+				return
+			}
+			if n := spareWritten(); n > 0 {
+				failKey, failMsg = "caller-options-written", fmt.Sprintf("%s wrote %d option(s) into the caller's option slice beyond the length it was given: a caller that later passes a longer prefix of the same array (an option pool) gets them applied to that call", where, n)
 				return
 			}
 			verifrt.WaitIdle()
